@@ -278,7 +278,7 @@ func rulePAN2(p *Program) *RuleResult {
 		}
 	}
 	r.floor("functions", 250)
-	r.floor("division_sites", 5)
+	r.floor("division_sites", 3)
 	return r
 }
 
@@ -300,6 +300,72 @@ func emptyInterface(t types.Type) bool {
 // arm) of the same value to a type that implies the asserted type.
 func assertionProved(ta *ssa.TypeAssert) (bool, string) {
 	fn := ta.Parent()
+	// several arms of one type switch share the block (`case A, B, C:`): the ok edges
+	// of the comma-ok assertions that imply the asserted type together cut every path
+	type edge struct {
+		from *ssa.BasicBlock
+		idx  int
+	}
+	var proving []edge
+	for _, b := range fn.Blocks {
+		for _, ins := range b.Instrs {
+			o, ok := ins.(*ssa.TypeAssert)
+			if !ok || !o.CommaOk || o == ta || !sameAccess(o.X, ta.X) || o.Referrers() == nil {
+				continue
+			}
+			implies := types.Identical(o.AssertedType, ta.AssertedType)
+			if !implies {
+				if it, ok := ta.AssertedType.Underlying().(*types.Interface); ok {
+					implies = types.Implements(o.AssertedType, it)
+				}
+			}
+			if !implies {
+				continue
+			}
+			for _, ref := range *o.Referrers() {
+				ex, ok := ref.(*ssa.Extract)
+				if !ok || ex.Index != 1 || ex.Referrers() == nil {
+					continue
+				}
+				for _, r2 := range *ex.Referrers() {
+					if ifi, ok := r2.(*ssa.If); ok {
+						proving = append(proving, edge{ifi.Block(), 0})
+					}
+				}
+			}
+		}
+	}
+	if len(proving) > 1 {
+		seen := map[*ssa.BasicBlock]bool{}
+		stack := []*ssa.BasicBlock{fn.Blocks[0]}
+		reached := false
+		for len(stack) > 0 && !reached {
+			x := stack[len(stack)-1]
+			stack = stack[:len(stack)-1]
+			if seen[x] {
+				continue
+			}
+			seen[x] = true
+			if x == ta.Block() {
+				reached = true
+				break
+			}
+			for i, sc := range x.Succs {
+				cut := false
+				for _, e := range proving {
+					if e.from == x && e.idx == i && x.Succs[1-i] != sc {
+						cut = true
+					}
+				}
+				if !cut {
+					stack = append(stack, sc)
+				}
+			}
+		}
+		if !reached && ta.Block() != fn.Blocks[0] {
+			return true, fmt.Sprintf("every path passes the ok edge of one of %d comma-ok assertions / type-switch arms of the same value to types that have the asserted type", len(proving))
+		}
+	}
 	for _, b := range fn.Blocks {
 		for _, ins := range b.Instrs {
 			o, ok := ins.(*ssa.TypeAssert)
@@ -404,7 +470,7 @@ func rulePAN4(p *Program) *RuleResult {
 			}
 		}
 	}
-	r.floor("unchecked_assertions", 20)
+	r.floor("unchecked_assertions", 12)
 	return r
 }
 
@@ -698,7 +764,7 @@ func rulePAN1(p *Program) *RuleResult {
 		}
 	}
 	r.floor("functions", 250)
-	r.floor("panic_helper_calls", 8)
+	r.floor("panic_helper_calls", 4)
 	return r
 }
 
@@ -764,6 +830,25 @@ func pan1Discharge(p *Program, fn *ssa.Function, call ssa.CallInstruction, targe
 			}
 		}
 	}
+	// (c') the numeric part is a number text by construction (a constant the grammar
+	// accepts, an integer rendered in base 10, or an in-repo helper returning only such)
+	if _, ok := constAccept[name]; ok && len(args) >= 1 {
+		if okNum, how := numericText(args[0], 0); okNum {
+			rest := true
+			for _, a := range args[1:] {
+				if _, ok := constString(a); !ok {
+					rest = false
+				}
+			}
+			if rest || (name == "MustParseQuantity" && quantityUnitUnchecked(p)) {
+				h := "the number is " + how
+				if !rest {
+					h += "; the unit is not validated (newQuantity never errors: SCCP)"
+				}
+				return h
+			}
+		}
+	}
 	// (b) time.Time.Format(L) re-parsed with a layout table that contains L
 	if strings.HasPrefix(name, "MustParse") && len(args) == 1 {
 		if l, ok := timeFormatOf(args[0]); ok && isLayout(l) {
@@ -791,6 +876,64 @@ func pan1Discharge(p *Program, fn *ssa.Function, call ssa.CallInstruction, targe
 		}
 	}
 	return ""
+}
+
+// numericText: v is always the text of a number the literal grammar accepts.
+func numericText(v ssa.Value, depth int) (bool, string) {
+	if depth > 4 {
+		return false, ""
+	}
+	if s, ok := constString(v); ok {
+		if reDecimal.MatchString(s) {
+			return true, "a constant number literal"
+		}
+		return false, ""
+	}
+	if f, ts, ok := sprintfOf(v); ok && (f == "%d" || f == "%v") && len(ts) == 1 && isIntegerType(ts[0]) {
+		return true, "fmt.Sprintf(\"" + f + "\", integer)"
+	}
+	switch x := v.(type) {
+	case *ssa.Phi:
+		for _, e := range x.Edges {
+			if ok, _ := numericText(e, depth+1); !ok {
+				return false, ""
+			}
+		}
+		return len(x.Edges) > 0, "one of several number texts"
+	case *ssa.ChangeType:
+		return numericText(x.X, depth+1)
+	case *ssa.Call:
+		sc := x.Common().StaticCallee()
+		if sc == nil {
+			return false, ""
+		}
+		switch sc.RelString(nil) {
+		case "strconv.Itoa":
+			return true, "strconv.Itoa(integer)"
+		case "strconv.FormatInt", "strconv.FormatUint":
+			if b, ok := x.Common().Args[1].(*ssa.Const); ok && b.Value != nil && b.Value.ExactString() == "10" {
+				return true, "strconv.FormatInt(integer, 10)"
+			}
+			return false, ""
+		}
+		if inRepoFn(sc) && len(sc.Blocks) > 0 && sc.Signature.Results().Len() == 1 {
+			found := false
+			for _, b := range sc.Blocks {
+				ret, ok := b.Instrs[len(b.Instrs)-1].(*ssa.Return)
+				if !ok {
+					continue
+				}
+				if ok, _ := numericText(ret.Results[0], depth+1); !ok {
+					return false, ""
+				}
+				found = true
+			}
+			if found {
+				return true, "the result of " + short(sc) + ", which only returns number texts"
+			}
+		}
+	}
+	return false, ""
 }
 
 // helperPanicsOnNilOnly: every Panic of the helper is in a block entered by
@@ -955,7 +1098,7 @@ func rulePAN8(p *Program) *RuleResult {
 			r.undecided("system.Collection.ToFloat64|finite", fmt.Sprintf("only %d value returns found in ToFloat64", n), p.pos(tf.Pos()), "shape changed")
 		}
 	}
-	r.floor("float_to_decimal_sites", 3)
+	r.floor("float_to_decimal_sites", 2)
 	return r
 }
 
